@@ -60,6 +60,7 @@ def assemble_csr(values, rowptr, colidx, ncols):
     if not (colidx.ndim == 1 and
             colidx.dtype.kind in 'ui' and
             len(colidx) == rowptr[-1] and
+            all(colidx >= 0) and
             all(colidx < ncols)):
         raise MatrixError('assemble received invalid column indices')
     colidx_is_increasing = numpy.empty((len(colidx)+1,), bool)
